@@ -734,6 +734,7 @@ package parser
 //@   assigns p.pos
 
 //@ func parser.(*parser).joinOperator
+//@   tablekeys joinTypes inner innerunique leftouter
 //@   keywords kind on
 //@   use perr exprwf exprok pwf yield
 //@   hide expr
